@@ -9,7 +9,8 @@ _sizes_cache = {}
 
 
 def frame_sizes():
-    """frame sizes of the four coroutine kinds of the harness (a property of the compiler, asked from the binary)"""
+    """frame sizes of the eight coroutine kinds of the harness — four sizes of locals, as free function (kinds 0-3) and as
+    non-static member function (4-7) — a property of the compiler, asked from the binary"""
     # the runner has just built the binary; take it from the build directory instead of building again (a second
     # build_harness call would delete the runner's copy if another agent touched a header in between)
     import os
@@ -20,11 +21,18 @@ def frame_sizes():
         return _sizes_cache[exe]
     rc, out, err = core.run_proc(exe, "", timeout=60, args=["--sizes"])
     rows = [l.split() for l in out.splitlines() if l.startswith("sizes ")]
-    if rc != 0 or not rows:
-        raise core.InfraError("h_storage --sizes failed: rc=%s %s" % (rc, err[-800:]))
-    fs = [int(x) for x in rows[0][2:6]]
+    if rc != 0:
+        # a broken header can crash the cross-check part; the plain policy alone is enough to learn the sizes, and if
+        # even that crashes the last known sizes are used: the crash then shows up in the suites as a violation
+        rc, out, err = core.run_proc(exe, "", timeout=60, args=["--sizes", "default"])
+        rows = [l.split() for l in out.splitlines() if l.startswith("sizes ")][:1]
+        if not rows:
+            rows = [["sizes", "fallback", "88", "152", "376", "1576", "96", "160", "384", "1584"]]
+    elif not rows:
+        raise core.InfraError("h_storage --sizes printed nothing: %s" % err[-800:])
+    fs = [int(x) for x in rows[0][2:10]]
     for r in rows:
-        if [int(x) for x in r[2:6]] != fs:
+        if [int(x) for x in r[2:10]] != fs:
             raise core.InfraError("coroutine frame sizes depend on the storage type: %r" % rows)
     _sizes_cache[exe] = fs
     return fs
@@ -156,7 +164,7 @@ class SeqSuite(Suite):
             if want_alloc:
                 k = 0
                 coro = rng.random() < 0.45
-                kind = rng.randint(0, 3)
+                kind = rng.randint(0, 7)
                 drop = coro and rng.random() < 0.15
                 sz = fs[kind] if coro else pick_size()
                 if pol == "placement" and sz + ex > p:
@@ -268,6 +276,13 @@ class SeqSuite(Suite):
                         cut -= 1
                     # a reusable/growing alloc is `del new`; a trailing del after the last new belongs to the release
                     evs_alloc, evs_free = evs[:cut], evs[cut:]
+                # the documented contract of the single-block policies (none of them has a busy flag): one live frame
+                # at a time; an input that breaks it (only shrinking produces such inputs) is not judged any further
+                at = field(head, "at") or ""
+                if pol in ("reusable", "placement", "buffer") and hv.frames:
+                    break
+                if pol == "stack" and at.startswith("x") and any(b == at.split("+")[0] for b, _, _ in hv.frames.values()):
+                    break
                 news = hv.events(evs_alloc)
                 if "noalloc" in head:
                     msgs.append("routing: the coroutine frame was not obtained from the storage")
